@@ -96,6 +96,12 @@ def gen_exchange(rng, tag, key, last, quick):
                                           ("PUT", "/VMAGENTLOG", None), ("POST", "/machine/", "comp=TelemetryData"),
                                           ("POST", "/MACHINE/", "COMP=TELEMETRYDATA"), ("PUT", "/vmagentlog", None)])
     target = path + ("?" + query if query is not None else "")
+    if not exempt and rng.random() < 0.05:
+        # look-alikes of the listener's own /provision endpoint: only the exact target "/provision" is answered locally, everything
+        # else on a recorded connection is the host's business and must be relayed
+        target = rng.choice(["/provision?comp=state&incarnation=7", "/provision?x", "/provision/", "/PROVISION",
+                             "/provisions", "/provision;v=1", "/provision/status?a=1", "http://168.63.129.16/provision?comp=state",
+                             "http://x/provision/", "/a/provision"])
     frag = "#frag" if rng.random() < 0.03 else ""
     hs = gen_headers(rng, REQ_NAMES, 0, 30 if rng.random() < 0.2 else 8, allow_obs=key is None)
     big_head = rng.random() < 0.012
@@ -332,11 +338,16 @@ def run(ctx):
     want = 300 if ctx.quick else 6000
     scenarios, plan = [], []        # plan[s] = [[exchange per request] per connection]
     total = 0
+    n_odd = [0]
     while total < want:
         s = len(scenarios)
         key = None if rng.random() < 0.5 else {"guid": "c14-%06x" % rng.getrandbits(24), "key": "%064x" % rng.getrandbits(256)}
         dest = rng.choice([e2e.WIRESERVER, e2e.HOSTGA, e2e.IMDS, e2e.OTHER])
         conns, pconns, replies = [], [], []
+        # who calls must not matter: in some scenarios the attributed caller is a helper process whose command line holds control
+        # characters (a shell started with a two-line -c script), DEL, TAB or non-ASCII text
+        odd_caller = rng.random() < 0.15
+        caller_argv = ["sh", "-c", "sleep 600" + rng.choice(["\n", "\r\n", "\x1b[0m", "\x7f", "\t", " \u00e9\u20ac", "\n\n", "\x01"]) + "# second line"]
         for ci in range(rng.randint(1, 4)):
             k = rng.choice([1, 1, 2, 3, 5, 10]) if rng.random() < 0.8 else rng.randint(1, 10)
             xs = [gen_exchange(rng, "q%d-%d-%d" % (s, ci, i), key, i == k - 1, ctx.quick) for i in range(k)]
@@ -364,12 +375,15 @@ def run(ctx):
                 reqs.append(e2e.req(raw, timeout_ms=60000, **knobs))
                 if not x["dead"]:
                     replies.append(x["reply"])
-            conns.append(e2e.conn(reqs, audit=e2e.audit(dest, uid=0), id=ci, pipelined=pipelined, timeout_ms=60000))
+            conns.append(e2e.conn(reqs, audit=e2e.audit(dest, uid=0, pid="oddcaller" if odd_caller else "self"), id=ci,
+                                  pipelined=pipelined, timeout_ms=60000))
             pconns.append(xs)
             total += k
         rng.shuffle(replies)
+        extra = {"exec_helpers": {"oddcaller": caller_argv}} if odd_caller else {}
+        n_odd[0] += 1 if odd_caller else 0
         scenarios.append(e2e.scenario("c14-%d" % s, conns, key=key, concurrent=True, replies={dest: replies},
-                                      scenario_timeout_ms=180000, drain_timeout_ms=6000))
+                                      scenario_timeout_ms=180000, drain_timeout_ms=6000, **extra))
         plan.append((dest, pconns))
     def plain_exchange(tag, key):
         while True:
@@ -411,6 +425,25 @@ def run(ctx):
             b["req_knobs"] = {"ops_after": [{"op": "sleep_ms", "ms": rng.choice([150, 250, 400])}]}
             bs.append(b)
         add_special("c14-abandon-%d" % s, dest, key, [[a], bs])
+    # the proxy is the side that closes (the client asked for `Connection: close`, or the host announced it) and the client is a SLOW
+    # READER: it starts reading 1.5 s after sending, when the proxy has long closed its side.  Everything the host sent must still
+    # arrive (a close that discards unsent data -- SO_LINGER 0 -- loses most of a body larger than the receive window)
+    for variant in ("client", "host"):
+        s = len(scenarios)
+        x = plain_exchange("q%d-0-0" % s, None)
+        x["kind"] = "slowread"
+        x["status"] = 200
+        x["rbody"] = x["tag"].encode() + b"|" + gen_body(rng, [1 << 20, 3 << 19])
+        rh = [["X-Reply-Tag", x["tag"]]]
+        if variant == "client":
+            x["headers"].append(("Connection", "close"))
+        else:
+            rh.append(["Connection", "close"])
+        x["rheaders"] = [(k, v) for k, v in rh]
+        x["reply"] = {"match": x["reply"]["match"], "status": 200, "headers": rh, "body_b64": e2e.base64.b64encode(x["rbody"]).decode(),
+                      "close": variant == "host"}
+        x["req_knobs"] = {"read_delay_ms": 1500}
+        add_special("c14-slow-reader-%s-%d" % (variant, s), rng.choice([e2e.WIRESERVER, e2e.IMDS]), None, [[x]])
     if not ctx.quick:
         # THOROUGH ONLY (12 s): a host that pauses longer than 10 s in the middle of a chunked body -- the client must still get
         # the whole body (an idle cut-off that ends the body cleanly would deliver a terminated prefix)
@@ -438,7 +471,7 @@ def run(ctx):
         ctx.log("search after the broken proof obligation: %d runs of the F12 witness, %d failing" % (len(stress), len(failures)))
     req_exprs, req_meta, resp_exprs, resp_meta = [], [], [], []
     n_pipelined = n_conn = 0
-    n_f12, n_dead, n_trunc, n_noreply, n_abandoned = [0], [0], [0], [0], [0]
+    n_f12, n_dead, n_trunc, n_noreply, n_abandoned, n_slowread = [0], [0], [0], [0], [0], [0]
 
     def add_request_model(case, x, up):
         if x["big_head"]:
@@ -506,6 +539,19 @@ def run(ctx):
                 why = prop_request(x, up)
                 if why:
                     failures.append({"case": case, "why": "request leg: " + why, "impl": rc.short(up["start_line"])})
+                if x["kind"] == "slowread":
+                    n_slowread[0] += 1
+                    done = i < len(responses) and responses[i].get("complete")
+                    resp = e2e.parse_http(responses[i]["raw"]) if i < len(responses) else None
+                    got = len(resp["body"]) if resp else 0
+                    if not done or resp is None or resp["status"] != x["status"] or resp["body"] != x["rbody"]:
+                        failures.append({"case": case, "impl": {"complete": bool(done), "body_bytes_received": got,
+                                                                "eof": responses[i].get("eof") if i < len(responses) else None},
+                                         "why": "response leg: an exchange the proxy closes (Connection: close) with a client that starts "
+                                                "reading 1.5 s after sending: the host sent %d body bytes, the client received %d%s" % (
+                                                    len(x["rbody"]), got, "" if done else " and then the connection broke")})
+                    add_request_model(case, x, up)
+                    continue
                 if x["kind"] == "abandoned":
                     n_abandoned[0] += 1           # the client went away on purpose: only the request leg is checked
                     add_request_model(case, x, up)
@@ -618,6 +664,9 @@ def run(ctx):
                                    "connection", "keep-alive", "upgrade", "proxy-connection", "te", "trailer") for k, _ in x["rheaders"])),
                                "replies_announcing_connection_close": sum(1 for x in allx if x["kind"] == "connclose"),
                                "replies_truncated_mid_body": n_trunc[0], "requests_the_host_dropped_without_answer": n_noreply[0],
+                               "connection_close_exchanges_with_a_slow_reader_1MiB": n_slowread[0],
+                               "scenarios_attributed_to_a_caller_with_control_characters_in_its_command_line": n_odd[0],
+                               "provision_look_alike_targets": sum(1 for x in allx if "provision" in x["target"].lower()),
                                "downloads_abandoned_by_one_client_while_another_uses_the_same_endpoint": n_abandoned[0],
                                "exempt_uploads_over_100KiB": sum(1 for x in allx if len(x["body"]) > 102400),
                                "requests_with_30_70KB_header_block": sum(1 for x in allx if x["big_head"]),
